@@ -218,7 +218,8 @@ def run_exec(root: str, spec: dict[str, Any], roles: dict[str, str], knobs: dict
     labels = None
     if program is not None:
         try:
-            labels = [(str(n), int(v)) for n, v in program.resolver.get_all_labels()]
+            root_t = root.replace("/", "_").replace(".", "_")  # how .incbin derives a label from a path
+            labels = [(str(n).replace(root, "$ROOT").replace(root_t, "$ROOT"), int(v)) for n, v in program.resolver.get_all_labels()]
         except Exception as e:  # noqa: BLE001
             labels = [("$error", 0), (type(e).__name__, 0)]
     out["labels"] = labels
@@ -248,9 +249,14 @@ def get_out(outcome: dict[str, Any], rel: str) -> bytes | None:
 
 def run_history(root: str, files: dict[str, bytes], roles: dict[str, str], ops: list[dict[str, Any]]) -> list[dict[str, Any]]:
     """Child main: populate the sandbox, run the ops in order, return outcomes."""
+    import gc
+
     simenv.populate(root, files)
     results: list[dict[str, Any]] = []
     for op in ops:
+        # Programs released by earlier operations are really freed (the collector is otherwise off in
+        # children): state keyed by object identity must not survive into the next assembly
+        gc.collect()
         kind = op.get("op", "exec")
         if kind == "exec":
             results.append(run_exec(root, op["spec"], roles, op.get("knobs") or {}, op.get("faults") or []))
@@ -271,13 +277,13 @@ def run_history(root: str, files: dict[str, bytes], roles: dict[str, str], ops: 
     return results
 
 
-def execute(files: dict[str, bytes], roles: dict[str, str], ops: list[dict[str, Any]], wall_s: float | None = None, mem_bytes: int | None = None) -> list[dict[str, Any]]:
+def execute(files: dict[str, bytes], roles: dict[str, str], ops: list[dict[str, Any]], wall_s: float | None = None, mem_bytes: int | None = None, cpu_s: int | None = None) -> list[dict[str, Any]]:
     """Worker side: sandbox + fork + cleanup."""
     from .core import run_child
 
     root = simenv.new_sandbox()
     try:
-        return run_child(run_history, root, files, roles, ops, wall_s=wall_s, mem_bytes=mem_bytes)
+        return run_child(run_history, root, files, roles, ops, wall_s=wall_s, mem_bytes=mem_bytes, cpu_s=cpu_s)
     finally:
         simenv.drop_sandbox(root)
 
